@@ -343,3 +343,38 @@ Proof.
   pose proof (clamp_range r (rows s) wf_rows). pose proof (clamp_range c (cols s) wf_cols).
   apply RG; lia.
 Qed.
+
+(** -- dump / str / pretty read the reference grid ------------------------------------------------------------ *)
+Definition agrid (a : ascr) : list (list N) :=
+  map (fun i => map (fun j => ag a i j) (seq 0%nat (Z.to_nat (aC a)))) (seq 0%nat (Z.to_nat (aR a))).
+
+Lemma list_as_map {A} (d : A) (l : list A) : l = map (fun j => nth j l d) (seq 0%nat (length l)).
+Proof.
+  induction l as [|x l IH]; [reflexivity|]. cbn [length seq map nth]. f_equal.
+  rewrite <- seq_shift, map_map. exact IH.
+Qed.
+
+Lemma grid_rep s a : wf s -> rep s a -> w s = agrid a.
+Proof.
+  intros Hwf (R1 & R2 & _ & _ & _ & _ & _ & _ & RG). destruct Hwf as [wf_rows0 wf_cols0 wf_len0 wf_row0 _ _ _ _ _ _]. unfold agrid. rewrite <- R1, <- R2.
+  rewrite (list_as_map [] (w s)) at 1.
+  assert (HL : length (w s) = Z.to_nat (rows s)) by lia. rewrite HL.
+  apply map_ext_in. intros i Hi. apply in_seq in Hi.
+  assert (Hrow : Z.of_nat (length (nth i (w s) [])) = cols s).
+  { rewrite Forall_forall in wf_row0. apply wf_row0. apply nth_In. lia. }
+  rewrite (list_as_map SPACE (nth i (w s) [])) at 1.
+  assert (HC : length (nth i (w s) []) = Z.to_nat (cols s)) by lia. rewrite HC.
+  apply map_ext_in. intros j Hj. apply in_seq in Hj.
+  apply (RG i j); lia.
+Qed.
+
+Theorem dump_rep s a : wf s -> rep s a -> dump s = concat (agrid a).
+Proof. intros Hwf Hr. unfold dump. now rewrite (grid_rep s a Hwf Hr). Qed.
+
+Theorem to_str_rep s a : wf s -> rep s a -> to_str s = join [10%N] (agrid a).
+Proof. intros Hwf Hr. unfold to_str. now rewrite (grid_rep s a Hwf Hr). Qed.
+
+Theorem pretty_rep s a : wf s -> rep s a ->
+  pretty s = (let top := (43 :: repeat 45 (Z.to_nat (aC a)) ++ [43; 10])%N in
+              top ++ join [10%N] (map (fun l => (124 :: l ++ [124])%N) (agrid a)) ++ [10%N] ++ top).
+Proof. intros Hwf Hr. unfold pretty. rewrite (grid_rep s a Hwf Hr). destruct Hr as (_ & R2 & _). now rewrite R2. Qed.
